@@ -43,6 +43,12 @@ CLAIMED = {
         text="Every typed left chain `a o1 b o2 c [o3 d]`, its right-nested variant and its unary-led variant over the 13 binary and 2 unary operators (exhaustive for those shapes over a fixed operand set), plus random trees with field chains, tuple indices, calls, negative literals and bare `not v` / `-v`, placed as let initialiser, if condition, call argument and println operand. The two spellings' .nvm files are compared section by section and --run outputs are compared; a rejection of only one spelling is a violation.",
         note="Operands in the exhaustive part are fixed variables/literals; the nesting ramp to the parser's depth limit is not built yet. `(-a + b)` directly after an opening parenthesis is the prefix application of `-` in this language and is never generated as an infix form.",
         design="3/C07"),
+    "C10": dict(
+        category="exploration",
+        technique="rapidcheck round-trip property over API-built modules (in-process, ASan/UBSan) + differential oracle over three runners (nano_virt --run, nano_vm file, native wrapper) on Hypothesis-generated programs; serialize(load(file)) == file on every compiler-produced module",
+        text="(a) deserialize(serialize(m)) == m field by field (strings with lengths incl. empty/duplicate/high bytes/long, function table with arbitrary field values, code up to 70 KiB, imports with parameter tables, debug entries, flags, entry point), serialize idempotent, stored CRC consistent - on modules built through the public nvm_* API by rapidcheck. (b) stdout bytes and exit status of the three ways to run a compiled program are equal, over exit statuses 0..255, runs ending in a failed assert, programs with globals (__init__) and extern calls; every produced .nvm is a fixed point of load/serialize.",
+        note="The wrapper is built through nano_virt -o (links the prebuilt objects of build/plain). Sampling, not enumeration.",
+        design="3/C10"),
 }
 
 NOT_YET = {
